@@ -286,6 +286,56 @@ def search_failing(ctx):
                     {"kind": "counterexample", "input": {"text": item[3], "ext": item[2]}})
     return None
 
+REPEATED_LINES = [
+    # (extension, first line, repeated line, last line): long runs of one kind of line
+    (".f", "      program p", "      ! text", "      end"),
+    (".f", "      program p", " !! doc", "      end"),
+    (".f", "      program p", "C remark", "      end"),
+    (".f", "      program p", "", "      end"),
+    (".f", "      program p", "      x = 1", "      end"),
+    (".f", "      x = 1", "     &  + 1", "      end"),
+    (".f90", "program p", "  ! text", "end"),
+    (".f90", "program p", "  !> doc", "end"),
+    (".f90", "program p", "", "end"),
+    (".f90", "program p", "  x = 1", "end"),
+    (".f90", "x = 1 &", "  + 1 &", "end"),
+    (".f90", "program p", "  x = 1; y = 2", "end"),
+    (".F90", "program p", "#define A 1", "end"),
+]
+
+
+def check_linear(ctx, n):
+    """'within a small bounded time', made deterministic: the number of line fetches (FortranFile.get_line) parse() needs for a
+    document of n equal lines must stay linear in n (a comment block in a fixed-form file used to cost n*n/2 fetches; fixed)."""
+    from fortls.parsers.internal import parser as P
+    calls = [0]
+    orig = P.FortranFile.get_line
+
+    def counting(self, *a, **kw):
+        calls[0] += 1
+        return orig(self, *a, **kw)
+    P.FortranFile.get_line = counting
+    try:
+        for ext, first, line, last in REPEATED_LINES:
+            f = P.FortranFile("/nonexistent/rep" + ext)
+            f.set_contents([first] + [line] * n + [last])
+            calls[0] = 0
+            try:
+                if ext == ".F90":
+                    f.preprocess()
+                f.parse()
+            except Exception as ex:      # noqa: BLE001
+                ctx.report("C03:crash", "parse() raises %s on %d equal lines" % (type(ex).__name__, n),
+                           {"kind": "counterexample", "input": {"ext": ext, "first": first, "repeated": line, "times": n, "last": last}})
+                continue
+            ctx.count(("linear", ext, line, n), True)
+            if calls[0] > 40 * (n + 2):
+                ctx.report("C03:quadratic-lines", "%d line fetches for a %s document of %d lines %r: not linear in the length" % (calls[0], ext, n + 2, line),
+                           {"kind": "counterexample", "input": {"ext": ext, "first": first, "repeated": line, "times": n, "last": last},
+                            "implementation": {"get_line_calls": calls[0]}, "oracle": "at most 40 per line"})
+    finally:
+        P.FortranFile.get_line = orig
+
 
 def run(ctx):
     ctx.cov["trusted_base"] = BASE_TRUST + [
@@ -295,7 +345,8 @@ def run(ctx):
     ctx.assumptions = [
         "partial: the statement readers (text -> classification), the preprocessor's text handling and CPython's regex running time are not modelled; "
         "they are exercised on prefixes/mutants only",
-        "'small bounded time' is observed as wall time under a per-file limit (2 s per 200 lines), not proved",
+        "'small bounded time' is observed as wall time under a per-file limit (2 s per 200 lines) and, for long runs of equal lines, as a linear "
+        "bound on the number of line fetches (deterministic); not proved",
     ]
     ctx.cov["rule"] = ("every input is derived from one of the sample sources under test/test_source: line prefix, character prefix of a line, "
                        "single-character mutation, line swap/duplication, dropped END, injected directive/noise lines, joined lines; offered as "
@@ -305,6 +356,7 @@ def run(ctx):
     q = ctx.quick()
     inputs = list(CORPUS) + statement_prefixes(ctx.rng, sources, 25 if q else 400) + gen_inputs(ctx.rng, sources, 3000 if q else 60000)
     check_inputs(ctx, inputs, 250 if q else 4000)
+    check_linear(ctx, 1200 if q else 6000)
     check_server_path(ctx, list(CORPUS) + statement_prefixes(ctx.rng, sources, 2 if q else 60)[::7] + gen_inputs(ctx.rng, sources, 150 if q else 3000))
 
 
